@@ -19,7 +19,7 @@ TIERS = {
 REQUIRED_BUCKETS = ['cls:OSError-family', 'cls:StopIteration', 'cls:UnicodeError', 'cls:SyntaxError', 'cls:ImportError', 'cls:AttributeError', 'cls:KeyError',
                     'cls:ExceptionGroup', 'cls:user-init-args', 'cls:user-new-args', 'cls:user-extra-attrs', 'cls:user-slots', 'cls:user-property',
                     'cls:user-custom-str', 'cls:user-multiple-inheritance', 'cls:user-shadowed-class-attr', 'cls:user-group-subclass', 'cls:BaseException-passthrough',
-                    'depth:1', 'depth:4', 'site:function', 'site:class-constructor', 'site:reference-evaluation', 'site:scoped', 'site:method', 'site:hostile-signature',
+                    'cls:user-new-raises-on-reconstruction', 'cls:user-new-is-a-factory', 'cls:user-init-subclass-hook', 'cls:explicit-cause', 'depth:1', 'depth:4', 'site:function', 'site:class-constructor', 'site:reference-evaluation', 'site:scoped', 'site:method', 'site:hostile-signature',
                     'cls:user-new-sets-state', 'cls:message-ends-with-whitespace', 'cls:TypeError-subclass']
 ORACLE_COUNTERS = ['oracle_evals', 'exceptions_compared', 'attributes_compared', 'except_clauses_tried']
 _S = {}
@@ -142,6 +142,64 @@ class UTypeError(TypeError):
     self.info = info
 
 
+class UNewRaises(Exception):
+  """__new__ validates its arguments (and rejects, with ValueError, what __init__ later stores in args)."""
+
+  def __new__(cls, code, extra=None):
+    int(code)
+    return super().__new__(cls, code, extra)
+
+  def __init__(self, code, extra=None):
+    super().__init__('code %s failed' % code)
+    self.code = code
+
+
+class UFactory(Exception):
+  """__new__ acts as a factory (the OSError pattern): it may return an instance of a registered subclass."""
+  by_code = {}
+
+  def __new__(cls, code, detail=None):
+    return super().__new__(UFactory.by_code.get(code, cls), code, detail)
+
+  def __init__(self, code, detail=None):
+    super().__init__(code, detail)
+    self.detail = detail
+
+
+class UFactoryNotFound(UFactory):
+  pass
+
+
+UFactory.by_code[404] = UFactoryNotFound
+
+
+class UInitSubclassKw(Exception):
+
+  def __init_subclass__(cls, *, code, **kw):
+    super().__init_subclass__(**kw)
+    cls.code = code
+
+
+class UInitSubclassKwChild(UInitSubclassKw, code=3):
+  pass
+
+
+class UFinal(Exception):
+  """A class that refuses to be subclassed any further."""
+
+  def __init_subclass__(cls, **kw):
+    raise RuntimeError('UFinal is final')
+
+
+# classes nobody can subclass at raise time: the message cannot be extended without changing the class; class, data and traceback still hold
+NO_MESSAGE_EXTENSION = (UInitSubclassKw, UFinal)
+
+
+def chained(e, cause):
+  e.__cause__ = cause          # as `raise e from cause` does (also sets __suppress_context__)
+  return e
+
+
 def bump(e):
   e.count += 5          # the raised object differs from a freshly constructed one
   e.stage = 'about-to-raise'
@@ -207,6 +265,14 @@ def builtin_instances():
       ('cls:message-ends-with-whitespace', lambda: ValueError('a message ending in a newline\n')),
       ('cls:message-ends-with-whitespace', lambda: KeyError('trailing space ')),
       ('cls:TypeError-subclass', lambda: UTypeError('bad type', {'expected': int})),
+      ('cls:user-new-raises-on-reconstruction', lambda: UNewRaises(42)),
+      ('cls:user-new-is-a-factory', lambda: UFactory(404, 'gone')),
+      ('cls:user-new-is-a-factory', lambda: UFactory(500, 'boom')),
+      ('cls:user-init-subclass-hook', lambda: UInitSubclassKwChild('x')),
+      ('cls:user-init-subclass-hook', lambda: UFinal('y')),
+      ('cls:explicit-cause', lambda: chained(ValueError('bad'), KeyError('k'))),
+      ('cls:explicit-cause', lambda: chained(UAttrs('bad value', 3), None)),
+      ('cls:explicit-cause', lambda: chained(OSError(2, 'No such thing', '/x'), UBase('base cause'))),
   ]
   return out
 
@@ -428,6 +494,10 @@ def run_case(ctx, case):
               '%s: attributes read differently on the caught exception (name, caught, original): %r' % (tname, bad[:6]))
   else:
     ctx.count('oracle_evals')
+  # ---- explicit chaining of the original (raise ... from ...)
+  if orig.__cause__ is not None or orig.__suppress_context__:
+    ctx.check(caught.__cause__ is orig.__cause__ and caught.__suppress_context__ == orig.__suppress_context__, 'exception-cause-lost',
+              '%s raised from %r: the caught exception has __cause__=%r __suppress_context__=%r' % (tname, orig.__cause__, caught.__cause__, caught.__suppress_context__))
   # ---- traceback and message
   frames = [f.name for f in traceback.extract_tb(caught.__traceback__)]
   ctx.check('innermost' in frames, 'traceback-lost', '%s: traceback of the caught exception lacks the raising frame: %r' % (tname, frames))
@@ -436,6 +506,9 @@ def run_case(ctx, case):
   pos = [frames.index(b) if b in frames else -1 for b in body]
   ctx.check(-1 not in pos and pos == sorted(pos) and frames.index('innermost') > max(pos), 'traceback-frames-missing',
             '%s at depth %d via %s: traceback frames %r do not contain the bodies %r in call order' % (tname, depth, site, frames, body))
+  if isinstance(orig, NO_MESSAGE_EXTENSION):
+    ctx.count('message_extension_impossible_class_cannot_be_subclassed')
+    return
   text = str(caught)
   base = str(orig)
   ctx.check(text.startswith(base), 'message-not-extended-original', '%s: str(caught)=%r does not start with str(original)=%r' % (tname, text[:200], base[:200]))
